@@ -28,7 +28,7 @@ use crate::de_error::budget_error;
 use crate::location::location_from_span;
 use crate::options::BudgetReportCallback;
 use crate::tags::SfTag;
-use saphyr_parser::{BufferedInput, Event, Parser, ScalarStyle, ScanError, Span, StrInput};
+use saphyr_parser::{BufferedInput, Event, Parser, ScalarStyle, ScanError, Span, StrInput, Tag};
 use smallvec::SmallVec;
 use std::borrow::Cow;
 use std::cell::RefCell;
@@ -500,6 +500,9 @@ impl<'a> LiveEvents<'a> {
                     if !exists {
                         return Err(Error::unknown_anchor().with_location(location));
                     }
+                    if let Some(budget) = self.budget.as_mut() {
+                        budget.alias_will_be_replayed();
+                    }
                     self.inject.push(InjectFrame {
                         anchor_id,
                         idx: 0,
@@ -608,7 +611,21 @@ impl<'a> LiveEvents<'a> {
         };
 
         let raw = match ev {
-            Ev::Scalar { value, style, .. } => Event::Scalar(Cow::Borrowed(value), *style, 0, None),
+            Ev::Scalar {
+                value,
+                style,
+                raw_tag,
+                ..
+            } => {
+                // Keep the fact that the scalar is tagged: a tagged `<<` is not a merge key.
+                let tag = raw_tag.as_ref().map(|t| {
+                    Cow::Owned(Tag {
+                        handle: String::new(),
+                        suffix: t.to_string(),
+                    })
+                });
+                Event::Scalar(Cow::Borrowed(value), *style, 0, tag)
+            }
             Ev::SeqStart { .. } => Event::SequenceStart(0, None),
             Ev::SeqEnd { .. } => Event::SequenceEnd,
             Ev::MapStart { .. } => Event::MappingStart(0, None),
